@@ -1168,6 +1168,26 @@ func (c *pieceCtx) r8(rule string) {
 			}
 		})
 		r.Check(same, rule, "AddData/no-overwrite", cp.Pos(), "a block is copied only when absent and the same block number is marked present", "the block number tested with Get is not the one marked with Set after the copy")
+		// … and the bytes land in that block: the destination starts at the very offset whose block number is marked
+		// (several blocks per call — a web-seed body read — advance a running offset; the call's own begin is only
+		// the first of them)
+		stripAll := func(v ssa.Value) ssa.Value {
+			for {
+				cv, ok := v.(*ssa.Convert)
+				if !ok || !isInteger(cv.Type()) || !isInteger(cv.X.Type()) {
+					return v
+				}
+				v = cv.X
+			}
+		}
+		if dst, okd := cp.Call.Args[0].(*ssa.Slice); okd && dst.Low != nil {
+			if kq, okq := stripAll(getCall.Call.Args[1]).(*ssa.BinOp); okq && kq.Op == token.QUO {
+				if kc, okc := constInt(kq.Y); okc && kc == chunk {
+					r.Check(stripAll(kq.X) == stripAll(dst.Low), rule, "AddData/copy-lands-in-marked-block", cp.Pos(), "the destination offset is the one whose block number is marked present",
+						"the copy's destination offset ("+exprStr(dst.Low)+") is not the offset whose block ("+exprStr(kq)+") is tested and marked present: when a call carries several blocks every block after the first is written over the first one's place while the right bits are set — the piece then fails its hash, or worse, wrong bytes sit under bits that say they are present")
+				}
+			}
+		}
 	}
 	// the source of each copy is a slice data[count : count+l] of the incoming data (its bounds are C05.R2's sinks)
 	// with l clamped to the block size: l = min(PieceLength-offset, ChunkSize) in one of its spellings
